@@ -76,6 +76,11 @@ type scriptClient struct {
 	rec        *recorder // the raw store's recorder (nil: no view on the store)
 	active     int       // feeding goroutines alive
 	extraCalls int
+	// a stream that reached its Stall element and is held open: its context and how many such
+	// streams are waiting right now (tick mode uses them to see renewals)
+	stalledCtx context.Context
+	stalledNow int
+	tickMode   bool
 	noRecorder bool
 	upTo       uint64
 	foreign    string
@@ -94,6 +99,30 @@ func (c *scriptClient) setTarget(u uint64) {
 	c.mu.Lock()
 	c.upTo = u
 	c.mu.Unlock()
+}
+
+// settled: every stream being served is one that is held open at its Stall element
+func (c *scriptClient) settled() bool {
+	c.mu.Lock()
+	defer c.mu.Unlock()
+	return c.active == c.stalledNow
+}
+
+// blocked: a stream is held open at its Stall element and its context is still alive
+func (c *scriptClient) blocked() bool {
+	c.mu.Lock()
+	defer c.mu.Unlock()
+	return c.stalledCtx != nil && c.stalledCtx.Err() == nil
+}
+
+// blockedCtx: the context of the stream held open at its Stall element, nil when there is none alive
+func (c *scriptClient) blockedCtx() context.Context {
+	c.mu.Lock()
+	defer c.mu.Unlock()
+	if c.stalledCtx != nil && c.stalledCtx.Err() == nil {
+		return c.stalledCtx
+	}
+	return nil
 }
 
 func (c *scriptClient) totalCalls() int {
@@ -158,7 +187,11 @@ var errUnreachable = errors.New("scripted: peer unreachable")
 
 func (c *scriptClient) SyncChain(ctx context.Context, p net.Peer, in *drand.SyncRequest, _ ...net.CallOption) (chan *drand.BeaconPacket, error) {
 	c.mu.Lock()
-	if c.autoNext && c.cur < len(c.attempts) && c.used >= len(others(c.attempts[c.cur])) {
+	if c.tickMode && c.stalledCtx != nil && c.stalledCtx.Err() != nil {
+		// the Sync that was blocked on a silent peer has been cancelled: this call belongs to the
+		// Sync that replaces it
+		c.cur, c.used, c.stalledCtx = c.cur+1, 0, nil
+	} else if c.autoNext && c.cur < len(c.attempts) && c.used >= len(others(c.attempts[c.cur])) {
 		c.cur, c.used = c.cur+1, 0
 	}
 	var spec *peerSpec
@@ -258,11 +291,18 @@ func (c *scriptClient) feed(ctx context.Context, ch chan *drand.BeaconPacket, st
 				case <-time.After(grace):
 				}
 			}
+			c.mu.Lock()
+			c.stalledCtx = ctx
+			c.stalledNow++
+			c.mu.Unlock()
 			select {
 			case c.stalled <- struct{}{}:
 			default:
 			}
 			<-ctx.Done()
+			c.mu.Lock()
+			c.stalledNow--
+			c.mu.Unlock()
 			return
 		case ePkt:
 			pk := &drand.BeaconPacket{Round: e.b.Round, PreviousSignature: e.b.PreviousSig, Signature: e.b.Signature}
